@@ -326,6 +326,10 @@ theorem c0_written : ∀ n : Fin 32, n.val ≠ 8 →
     (e.mods = 0 ∧ e.text = [] ∧ e.keycode = b ∧ e.keycode < maxRune ∧ validRune e.keycode = true) ∨
     (e.mods = ctrlBit ∧ 0 ≤ e.keycode ∧ e.keycode < maxRune ∧ ctrlWritten e.keycode = [b]) := by decide
 
+/-- The events the host posts for a paste are presses or paste events, never releases. -/
+theorem paste_event_not_release (p : Bool) : ((if p = true then EventPaste else EventPress) = EventRelease) = False := by
+  cases p <;> simp [EventPaste, EventPress, EventRelease]
+
 /-- One item: what `Model.Update` writes for the event the host posts for it is what is due. -/
 theorem item_due (u : Uni) (md : Modes) (pending : Bool) (it : PasteItem) (h : it.ok u) :
     update u md (it.event u pending) = it.due md := by
@@ -334,7 +338,7 @@ theorem item_due (u : Uni) (md : Modes) (pending : Bool) (it : PasteItem) (h : i
   | stop => simp only [PasteItem.event, PasteItem.due, update]; split <;> decide
   | grapheme g =>
     obtain ⟨hg, h0, hmax, hdel, hup⟩ := h
-    simp only [PasteItem.event, PasteItem.due, update]
+    simp only [PasteItem.event, PasteItem.due, update, paste_event_not_release, if_false]
     rw [decodeKey_print u g hg (fun hu => (hup hu).2.2)]
     by_cases hu : u.isUpper (g.headD 0) = true
     · obtain ⟨hlmax, hl9, _⟩ := hup hu
@@ -358,7 +362,7 @@ theorem item_due (u : Uni) (md : Modes) (pending : Bool) (it : PasteItem) (h : i
         rw [text_forwarded u _ _ _ (by simp [textDue, hg, xtermMods, shiftBit, altBit, ctrlBit, hmax])]
   | c0 b =>
     obtain ⟨h0, h32, h8⟩ := h
-    simp only [PasteItem.event, PasteItem.due, update]
+    simp only [PasteItem.event, PasteItem.due, update, paste_event_not_release, if_false]
     rw [decodeKey_c0 u b h0 h32]
     obtain ⟨n, rfl⟩ : ∃ n : Nat, b = n := ⟨b.toNat, by omega⟩
     have hn : n < 32 := by omega
@@ -446,11 +450,27 @@ example : ∀ it ∈ [PasteItem.grapheme [101, 769], .grapheme [69, 769], .c0 9,
     `decodeKey` as the BackSpace key — the same event as DEL — and is therefore forwarded as DEL. -/
 theorem paste_bs_becomes_del (u : Uni) (md : Modes) (pending : Bool) :
     update u md ((PasteItem.c0 8).event u pending) = [127] := by
-  simp only [PasteItem.event, update]
+  simp only [PasteItem.event, update, paste_event_not_release, if_false]
   rw [decodeKey_c0 u 8 (by decide) (by decide)]
   have e : c0Expected 8 = { keycode := 127 } := by decide
   rw [e]
   exact enc_plain u _ _ _ (by simp) rfl (by simp [maxRune]) (by simp [validRune, maxRune])
+
+/-! ## Key releases -/
+
+/-- **release_not_forwarded.** A key *release* (kitty event type 3 — what a host started with
+    `Options.ReportKeyboardEvents` receives after every press) handed to the terminal writes nothing: the
+    xterm encoding has no releases, and writing the key would make the child see it pressed a second time
+    (before the repair F313 every release was forwarded like a press: `a` arrived as `aa`, Enter twice, …).
+    Every other event type (press, repeat, paste) is encoded by `encodeXterm` with the child's keypad and
+    cursor-key modes.  Every key, `unicode` oracle and mode state. -/
+theorem release_not_forwarded (u : Uni) (md : Modes) (k : Key) :
+    (k.event = EventRelease → update u md (.key k) = []) ∧
+    (k.event ≠ EventRelease → update u md (.key k) = encodeXterm u k md.deckpam md.decckm) := by
+  constructor <;> intro h <;> simp [update, h]
+
+example : update asciiUni {} (.key { keycode := 97, event := EventRelease }) = [] ∧
+    update asciiUni {} (.key { keycode := 97, event := EventRepeat }) = [97] := by decide
 
 /-! ## Mouse: the legacy (non-SGR) report -/
 
